@@ -1,9 +1,15 @@
 import ChiaModel.Drv.C11
+import ChiaModel.Drv.C01
+import ChiaModel.Spec.CostTable
 open ChiaModel.Drv
 
 def dispatch (line : String) : String :=
   match words line with
   | "C11" :: rest => C11.handle ("C11" :: rest)
+  | "C01" :: rest => C01.handle ("C01" :: rest)
+  | ["C04", "ucc", op] =>
+    -- the documented closed form (Props/C04 proves the table regenerated from the source equal to it)
+    toString (ChiaModel.Spec.unknownConditionCost (natArg op))
   | _ => "bad-op"
 
 partial def loop (h : IO.FS.Stream) (out : IO.FS.Stream) : IO Unit := do
